@@ -169,7 +169,9 @@ Proof.
   unfold Exporter.sanity, Exporter.lookup_tpl. cbn [rec_tid rec_fc rec_buffer_e find fst snd]. rewrite N.eqb_refl. cbn [snd].
   assert (Hl : nels r = N.of_nat (length tpl)).
   { unfold nels. rewrite <- Ht, map_length. reflexivity. }
-  rewrite Hl, N.eqb_refl. cbn [negb].
+  rewrite Hl, N.eqb_refl. cbn [negb Exporter.cur Exporter.fx_reclen Exporter.fx_zerolen rec_buffer_e_g].
+  fold (get_buffer_n (data_len_v1 r) r).
+  change (data_len_v1 r) with (record_len r). rewrite get_buffer_n_eq.
   rewrite (get_buffer_spec r bs Hw E). cbn [obind].
   destruct (N.ltb_spec (blen bs) m) as [C|_]; [unfold blen in C; lia|].
   cbn [Exporter.fx_encode Nat.eqb negb andb].
@@ -203,7 +205,8 @@ Proof.
   cbn [forallb] in H. apply andb_true_iff in H as [H1 H2]. apply andb_true_iff in H1 as [_ Hw].
   destruct (enc_all_defined r Hw) as [bs E].
   cbn [map]. constructor; [|exact (IH H2)].
-  exists bs. unfold rec_buffer, drec. cbn [rec_buffer_e]. rewrite (get_buffer_spec r bs Hw E). reflexivity.
+  exists bs. unfold rec_buffer, drec. rewrite rec_buffer_e_data.
+  change (data_len_v1 r) with (record_len r). rewrite get_buffer_n_eq. rewrite (get_buffer_spec r bs Hw E). reflexivity.
 Qed.
 
 Lemma data_send (obs : N) (udp : bool) (tid : N) (tpl : list ie) (m : N) (recs : list (list (ie * value))) :
